@@ -143,7 +143,7 @@ impl Local {
 // Hang watchdog: a call that burns more than HANG_CPU_NS of its thread's CPU time on one case is a
 // non-terminating (or runaway) call. Decided on thread CPU time, not wall clock.
 
-pub const HANG_CPU_NS: u64 = 25_000_000_000;
+pub const HANG_CPU_NS: u64 = 60_000_000_000;
 
 type Describer = Box<dyn Fn(u64) -> serde_json::Value + Send + Sync>;
 static HANG_DESCRIBER: Mutex<Option<Describer>> = Mutex::new(None);
